@@ -1,1 +1,207 @@
-(* placeholder *)
+(* Proofs about the event-level asset replication model (Assets.v): property C06.
+
+   Part W : the defects, as machine-checked witnesses (findings)
+   Part 0-2: channel operations, one-step characterisations, well-formedness
+   Part 3 : the single-publisher invariant [Inv] (what holds outside the S7 class)
+   Part 4 : drain separation: the counting invariant [Cnt] (no S7 inside a round)
+   Part 5 : C06 theorems (first publication, overwrites), stability, traffic
+   Part 6 : joins
+   Part M : materials *)
+From Coq Require Import NArith List Lia.
+From stdpp Require Import gmap list.
+From BS Require Import Abs.Assets.
+
+Local Open Scope N_scope.
+
+(* ================================================================================================
+   Part W: witnesses
+   ================================================================================================ *)
+
+(* The literal property: while one peer alone publishes the id (overwrites included), every quiescent
+   state shows the last published content on every peer. *)
+Definition C06_statement : Prop :=
+  forall n p tr s',
+    arun (ainit n) tr = Some s' -> only_publisher p tr -> no_joins tr -> aquiescent s' ->
+    forall q, peers s' q -> pstore s' q = last (published tr).
+
+Ltac only_pub := unfold only_publisher; vm_compute; repeat constructor.
+
+(* S7 + S12.  The host publishes 10 and 20 in quick succession; client 1 applies both downloads before
+   its react system runs: two events, one token.  The second event is not swallowed: client 1 SERVES
+   the asset and announces itself as owner; the host relays that to client 2.  From now on client 1's
+   own cache holds the id, so request() ignores every later announcement: when the host publishes 30,
+   client 1 keeps 20 for ever.  Nobody but the host ever published. *)
+Definition w_burst : list aevent :=
+  [APublish 0 10; AReact 0; APublish 0 20; AReact 0;
+   ADeliver 0 1; ADeliver 0 1; ADownload 1; ADownload 1; AReact 1;
+   ADeliver 1 0; ADeliver 0 2; ADownload 2; AReact 2; ADeliver 0 2; ADownload 2; AReact 2;
+   ADeliver 0 2; ADownload 2; AReact 2;
+   APublish 0 30; AReact 0; ADeliver 0 1; ADeliver 0 2; ADownload 2; AReact 2].
+
+Theorem C06_burst_overwrite_refuted :
+  exists n p tr s',
+    arun (ainit n) tr = Some s' /\ only_publisher p tr /\ no_joins tr /\ aquiescent s' /\
+    known_S7 (ainit n) tr = true /\ known_S12 (ainit n) tr = true /\
+    last (published tr) = Some 30 /\ pstore s' p = Some 30 /\
+    pstore s' 1 = Some 20 /\ pserved s' 1 = Some 20 /\ 1 ∈ aconn s'.
+Proof.
+  exists 2%nat, 0, w_burst. eexists. split; [vm_compute; reflexivity|].
+  split; [only_pub|]. split; [reflexivity|]. split; [apply bool_decide_eq_true; vm_compute; reflexivity|].
+  vm_compute. repeat split; auto. apply elem_of_list_here.
+Qed.
+
+Theorem C06_refuted : ~ C06_statement.
+Proof.
+  intros H. destruct C06_burst_overwrite_refuted as (n & p & tr & s' & Hrun & Hop & Hnj & Hq & _ & _ & Hl & _ & H1 & _ & Hin).
+  specialize (H n p tr s' Hrun Hop Hnj Hq 1 (or_intror Hin)). rewrite H1, Hl in H. discriminate.
+Qed.
+
+(* S12 alone.  Drain separation does not help when the publisher changes: client 1 publishes 10
+   (and therefore serves the id); everything drains; client 2 publishes 20; the host fetches it, client 1
+   ignores the relayed announcement.  No S7 anywhere in the run. *)
+Definition w_other_publisher : list aevent :=
+  [APublish 1 10; AReact 1; ADeliver 1 0; ADownload 0; ADeliver 0 2; AReact 0; ADownload 2; AReact 2;
+   APublish 2 20; AReact 2; ADeliver 2 0; ADownload 0; AReact 0; ADeliver 0 1].
+
+Theorem C06_republish_by_other_peer_refuted :
+  exists n tr s',
+    arun (ainit n) tr = Some s' /\ no_joins tr /\ ops_at_quiescence (ainit n) tr = true /\ aquiescent s' /\
+    known_S7 (ainit n) tr = false /\ known_S12 (ainit n) tr = true /\
+    published tr = [10; 20] /\ pstore s' 0 = Some 20 /\ pstore s' 2 = Some 20 /\
+    pstore s' 1 = Some 10 /\ 1 ∈ aconn s'.
+Proof.
+  exists 2%nat, w_other_publisher. eexists. split; [vm_compute; reflexivity|].
+  split; [reflexivity|]. split; [vm_compute; reflexivity|].
+  split; [apply bool_decide_eq_true; vm_compute; reflexivity|].
+  vm_compute. repeat split; auto. apply elem_of_list_here.
+Qed.
+
+(* S12 by the client's local build_full_sync.  A client that connects while it already holds the id
+   (e.g. the same file loaded under the same uuid) serves it at once: the host's announcement in the
+   snapshot is ignored, the joiner keeps its own content. *)
+Theorem join_preloaded_refuted :
+  exists n tr c s',
+    arun (ainit n) tr = Some s' /\ only_publisher 0 tr /\ ops_at_quiescence (ainit n) tr = true /\
+    aquiescent s' /\ known_S7 (ainit n) tr = false /\ known_S12 (ainit n) tr = true /\
+    c ∈ aconn s' /\ pstore s' 0 = Some 10 /\ pstore s' c = Some 5.
+Proof.
+  exists 1%nat, [APublish 0 10; AReact 0; ADeliver 0 1; ADownload 1; AReact 1; AJoin 2 (Some 5); ADeliver 0 2], 2.
+  eexists. split; [vm_compute; reflexivity|]. split; [only_pub|]. split; [vm_compute; reflexivity|].
+  split; [apply bool_decide_eq_true; vm_compute; reflexivity|].
+  vm_compute. repeat split; auto. apply elem_of_list_further, elem_of_list_here.
+Qed.
+
+(* S12 by the host's build_full_sync.  Client 1 is the only publisher, everything is drain separated.
+   Client 2 joins (fresh): the host serves its copy for the snapshot.  From then on the host ignores
+   client 1's overwrites (it still relays them: clients 1 and 2 hold 20, the host keeps 10), and a later
+   joiner is given the host's stale copy. *)
+Definition w_host_stale : list aevent :=
+  [APublish 1 10; AReact 1; ADeliver 1 0; ADownload 0; AReact 0;
+   AJoin 2 None; ADeliver 0 2; ADownload 2; AReact 2;
+   APublish 1 20; AReact 1; ADeliver 1 0; ADeliver 0 2; ADownload 2; AReact 2;
+   AJoin 3 None; ADeliver 0 3; ADownload 3; AReact 3].
+
+Theorem C06_host_stale_after_join_refuted :
+  exists n tr s',
+    arun (ainit n) tr = Some s' /\ only_publisher 1 tr /\ fresh_joins tr /\
+    ops_at_quiescence (ainit n) tr = true /\ aquiescent s' /\
+    known_S7 (ainit n) tr = false /\ known_S12 (ainit n) tr = true /\
+    last (published tr) = Some 20 /\
+    pstore s' <$> [0; 1; 2; 3] = [Some 10; Some 20; Some 20; Some 10].
+Proof.
+  exists 1%nat, w_host_stale. eexists. split; [vm_compute; reflexivity|]. split; [only_pub|].
+  split; [unfold fresh_joins; vm_compute; repeat constructor|]. split; [vm_compute; reflexivity|].
+  split; [apply bool_decide_eq_true; vm_compute; reflexivity|].
+  vm_compute. repeat split; auto.
+Qed.
+
+(* A join while the host is still downloading.  Client 1 publishes ONCE; the host has relayed the
+   announcement and started its download when client 2 joins: the snapshot is built from Assets<T>, which
+   does not hold the id yet; the completed download is swallowed by its token.  Client 2 never hears of
+   the id.  Neither S7 nor S12 is involved. *)
+Theorem join_during_download_refuted :
+  exists n tr c s',
+    arun (ainit n) tr = Some s' /\ published tr = [10] /\ fresh_joins tr /\ aquiescent s' /\
+    known_S7 (ainit n) tr = false /\ known_S12 (ainit n) tr = false /\ known_join_window (ainit n) tr = true /\
+    c ∈ aconn s' /\ pstore s' 0 = Some 10 /\ pstore s' c = None.
+Proof.
+  exists 1%nat, [APublish 1 10; AReact 1; ADeliver 1 0; AJoin 2 None; ADownload 0; AReact 0], 2.
+  eexists. split; [vm_compute; reflexivity|]. split; [reflexivity|].
+  split; [unfold fresh_joins; vm_compute; repeat constructor|].
+  split; [apply bool_decide_eq_true; vm_compute; reflexivity|].
+  vm_compute. repeat split; auto. apply elem_of_list_further, elem_of_list_here.
+Qed.
+
+(* S7 without a burst: the host publishes once, a client joins between the insert and the host's react
+   run: it is told twice (snapshot + broadcast), applies both downloads before reacting, serves the id,
+   and misses the next overwrite. *)
+Theorem join_before_react_refuted :
+  exists tr s',
+    arun (ainit 0) tr = Some s' /\ only_publisher 0 tr /\ fresh_joins tr /\ aquiescent s' /\
+    known_S7 (ainit 0) tr = true /\ published tr = [10; 20] /\ pstore s' 0 = Some 20 /\ pstore s' 1 = Some 10.
+Proof.
+  exists [APublish 0 10; AJoin 1 None; AReact 0; ADeliver 0 1; ADeliver 0 1; ADownload 1; ADownload 1; AReact 1;
+          ADeliver 1 0; APublish 0 20; AReact 0; ADeliver 0 1].
+  eexists. split; [vm_compute; reflexivity|]. split; [only_pub|].
+  split; [unfold fresh_joins; vm_compute; repeat constructor|].
+  split; [apply bool_decide_eq_true; vm_compute; reflexivity|].
+  vm_compute. repeat split; auto.
+Qed.
+
+(* ---------- materials --------------------------------------------------------------------------- *)
+
+Definition M06_statement : Prop :=
+  forall n p tr s',
+    mrun (minit n) tr = Some s' -> monly_publisher p tr -> mquiescent s' ->
+    forall q, mpeers s' q -> mpstore s' q = last (mpublished tr).
+
+(* S7 for materials, as observed on the real code: the host writes 20 and 30 while the clients do not
+   step; each client applies both updates before its react system runs: the second event is not swallowed
+   and sends the CURRENT content (30) back to the host.  Meanwhile the host has written 40.  The echo
+   30 is applied on the host (token), the host's own event for 40 is swallowed by that token, the next
+   event announces 30 to everybody: the newest write is overwritten everywhere by an older one. *)
+Definition w_material : list mevent :=
+  [MPublish 0 20; MReact 0; MPublish 0 30; MReact 0;
+   MDeliver 0 1; MDeliver 0 1; MDeliver 0 2; MDeliver 0 2; MReact 1; MReact 2;
+   MPublish 0 40; MDeliver 1 0; MDeliver 2 0; MReact 0;
+   MDeliver 0 1; MReact 1; MDeliver 0 1; MReact 1; MDeliver 0 1; MReact 1;
+   MDeliver 0 2; MReact 2; MDeliver 0 2; MReact 2; MDeliver 0 2; MReact 2].
+
+Theorem M06_older_overwrites_newer_refuted :
+  exists n tr s',
+    mrun (minit n) tr = Some s' /\ monly_publisher 0 tr /\ mquiescent s' /\ mknown_S7 (minit n) tr = true /\
+    mpublished tr = [20; 30; 40] /\ mpstore s' <$> [0; 1; 2] = [Some 30; Some 30; Some 30].
+Proof.
+  exists 2%nat, w_material. eexists. split; [vm_compute; reflexivity|].
+  split; [unfold monly_publisher; vm_compute; repeat constructor|].
+  split; [apply bool_decide_eq_true; vm_compute; reflexivity|].
+  vm_compute. repeat split; auto.
+Qed.
+
+Theorem M06_refuted : ~ M06_statement.
+Proof.
+  intros H. destruct M06_older_overwrites_newer_refuted as (n & tr & s' & Hrun & Hop & Hq & _ & Hp & Hs).
+  specialize (H n 0 tr s' Hrun Hop Hq 0 (or_introl eq_refl)). rewrite Hp in H.
+  injection Hs as Hs _. rewrite Hs in H. discriminate.
+Qed.
+
+(* The echo need not die out.  After two publications of the host (even of the same content) applied
+   together by both clients, there is a cycle: the two echoes reach the host, which relays each to the
+   other client and -- two events, one token -- broadcasts once; each client receives two messages,
+   applies both before reacting, and echoes again.  Six messages per turn, for ever, with no publication
+   and the same content everywhere. *)
+Definition w_echo_pre : list mevent :=
+  [MPublish 0 20; MReact 0; MPublish 0 30; MReact 0;
+   MDeliver 0 1; MDeliver 0 1; MDeliver 0 2; MDeliver 0 2; MReact 1; MReact 2].
+Definition w_echo_loop : list mevent :=
+  [MDeliver 1 0; MDeliver 2 0; MReact 0; MDeliver 0 1; MDeliver 0 1; MDeliver 0 2; MDeliver 0 2; MReact 1; MReact 2].
+
+Theorem material_echo_cycle :
+  exists n pre loop s,
+    mrun (minit n) pre = Some s /\ monly_publisher 0 pre /\ length (mpublished pre) = 2%nat /\
+    Forall mplain loop /\ mrun s loop = Some s /\ mtotal_sent s loop = 6%nat.
+Proof.
+  exists 2%nat, w_echo_pre, w_echo_loop. eexists. split; [vm_compute; reflexivity|].
+  split; [unfold monly_publisher; vm_compute; repeat constructor|]. split; [reflexivity|].
+  split; [repeat constructor|]. split; vm_compute; reflexivity.
+Qed.
